@@ -69,7 +69,18 @@ class JsonParser(object):
         json_elements = json_feature.get("elements", [])
         for json_element in json_elements:
             self.add_feature_element(feature, json_element)
+        self.use_status_from(json_feature, feature)
         return feature
+
+    @staticmethod
+    def use_status_from(json_element, model_element):
+        """Use the status that was stored in the JSON report (if any).
+        It cannot always be recomputed from the steps
+        (hook errors, cleanup errors, skipped elements, ...).
+        """
+        status_name = json_element.get("status", None)
+        if status_name:
+            model_element.set_status(Status.from_name(status_name))
 
 
     def add_feature_element(self, feature, json_element):
@@ -129,6 +140,7 @@ class JsonParser(object):
         filename, line = location.split(":")
         scenario = model.Scenario(filename, line, keyword, name, tags, steps)
         scenario.description = description
+        self.use_status_from(json_element, scenario)
         return scenario
 
     def parse_scenario_outline(self, json_element):
